@@ -768,8 +768,28 @@ def r20e(R):
     # is_running answers by that name: active agent's name or background key
     ir = A.func(JOBS, 'JobControl.is_running')
     txt = norm(ir.node)
-    R.check(ir, 'is_running: active agent name or background key',
-            'self._active_agent.name == name' in txt and
-            'name in self._background' in txt,
-            'is_running no longer answers for the active agent and the '
-            'background table by name')
+    icfg = A.cfg(ir)
+    bg_nodes = [n for n in icfg.nodes if any(
+        isinstance(x, ast.Compare) and isinstance(x.ops[0], ast.In)
+        and norm(x.comparators[0]) == 'self._background'
+        for e in n.exprs() for x in ast.walk(e))]
+    has_active = [n for n in icfg.nodes if n.kind == 'cond'
+                  and norm(n.ast) == 'self._active_agent is not None']
+    name_eq = [n for n in icfg.nodes if any(
+        isinstance(x, ast.Compare) and norm(x) in (
+            'self._active_agent.name == name', 'name == self._active_agent.name')
+        for e in n.exprs() for x in ast.walk(e))]
+    ok = bool(bg_nodes and has_active and name_eq)
+    if ok:
+        # the background table must also be consulted when another job is
+        # the active one: reachable without the "no active agent" edge
+        reach = reachable_without_edges(
+            icfg, icfg.entry, set((n.id, False) for n in has_active))
+        ok = any(n.id in reach for n in bg_nodes) and \
+            all(n.kind == 'cond' for n in name_eq)
+    R.check(ir, 'is_running: active agent\'s name, else background key - also '
+            'while another job is active', ok,
+            'is_running consults the background table only when no queued job '
+            'is active: a running background script is reported as not running '
+            'while any foreground job executes, so it is started a second time '
+            'and cannot be stopped by name')
